@@ -23,6 +23,8 @@ import (
 	"io"
 	"math"
 	"math/big"
+	"runtime"
+	"runtime/debug"
 	"sort"
 	"strings"
 	"sync"
@@ -38,6 +40,7 @@ import (
 	apistatus "github.com/nspcc-dev/neofs-sdk-go/client/status"
 	"github.com/nspcc-dev/neofs-sdk-go/container"
 	cid "github.com/nspcc-dev/neofs-sdk-go/container/id"
+	neofscrypto "github.com/nspcc-dev/neofs-sdk-go/crypto"
 	neofsecdsa "github.com/nspcc-dev/neofs-sdk-go/crypto/ecdsa"
 	"github.com/nspcc-dev/neofs-sdk-go/netmap"
 	"github.com/nspcc-dev/neofs-sdk-go/object"
@@ -96,7 +99,7 @@ func pvUser(i int) user.ID { return user.NewFromECDSAPublicKey(pvKey(i).PublicKe
 func pvSigner(i int) user.Signer { return user.NewAutoIDSignerRFC6979(*pvKey(i)) }
 
 func pvPubBytes(i int) []byte {
-	return (*neofsecdsa.PublicKey)(&pvKey(i).PublicKey).Bytes()
+	return neofscrypto.PublicKeyBytes((*neofsecdsa.PublicKey)(&pvKey(i).PublicKey))
 }
 
 // ---------------------------------------------------------------------------------------
@@ -580,6 +583,46 @@ func gateNode(key string) string {
 		return ""
 	}
 	return p[1]
+}
+
+// pvCatchPanic turns a panic of the code under test into a violation whose signature names
+// the panicking function of this package, the kind of runtime error and the given shape.
+// Must be deferred directly by the task function.
+func (w *pvWorld) pvCatchPanic(shape string) {
+	x := recover()
+	if x == nil {
+		return
+	}
+	var msg string
+	switch v := x.(type) {
+	case error:
+		msg = v.Error()
+	case string:
+		msg = v
+	default:
+		panic(x) // the kernel's own unwinding
+	}
+	site := "unknown"
+	pcs := make([]uintptr, 64)
+	n := runtime.Callers(2, pcs)
+	frames := runtime.CallersFrames(pcs[:n])
+	for {
+		f, more := frames.Next()
+		if strings.Contains(f.Function, "services/object/put.") && !strings.Contains(f.File, "zz_verif") {
+			site = f.Function[strings.LastIndex(f.Function, "/")+1:]
+			break
+		}
+		if !more {
+			break
+		}
+	}
+	generic := strings.Map(func(c rune) rune {
+		if c >= '0' && c <= '9' {
+			return 'N'
+		}
+		return c
+	}, msg)
+	w.r.Report("put-panic", fmt.Sprintf("%s: %s [%s]", site, generic, shape), "the PUT pipeline panicked: %s\n%s", msg, debug.Stack())
 }
 
 func pvErrClass(err error) string {
